@@ -174,7 +174,11 @@ pub fn record(output: &str) {
                 let link_err = (0..6).map(|i| Iso::from_na(&links[i]).dpos(&want_links[i]).max(Iso::from_na(&links[i]).drot(&want_links[i]))).fold(0.0, f64::max);
                 let lim_same = match kws.constraints() { Some(c) => c.from == case.from && c.to == case.to, None => false };
                 let qs: Joints = [q[0], q[1], q[2], q[3], 0.0, q[5]];
-                let sing_same = kws.kinematic_singularity(&qs).is_some() && kws.kinematic_singularity(&q).is_some() == (q[4].sin().abs() < 1.7e-4);
+                // (also for a singular vector outside the limits: the report is the stack's, whatever the limits say)
+                let mut q_out = qs;
+                q_out[0] = case.to[0] + 0.4;
+                let sing_same = kws.kinematic_singularity(&qs).is_some() && kws.kinematic_singularity(&q).is_some() == (q[4].sin().abs() < 1.7e-4)
+                    && kws.kinematic_singularity(&q_out).is_some() == kws.kinematics.kinematic_singularity(&q_out).is_some() && kws.kinematic_singularity(&q_out).is_some();
                 // the pair reports of the robot with shape are the body's own (same kinematics, same joints)
                 let norm = |v: Vec<(usize, usize)>| { let mut v: Vec<(usize, usize)> = v.into_iter().map(|p| (p.0.min(p.1), p.0.max(p.1))).collect(); v.sort(); v };
                 let wide = SafetyDistances { to_environment: 0.3, to_robot_default: 0.05, special_distances: kws.body.safety.special_distances.clone(), mode: CheckMode::AllCollsions };
